@@ -160,21 +160,23 @@ def sweep_prefix_rule(ctx, rid: str):
         raise AnalysisError('simulate_sweep_iter no longer calls split_into_matching_protocol_then_general')
     for c in calls:
         pred = c.args[1] if len(c.args) > 1 else None
-        body = None
+        from ..flow import conjuncts, dominating_atoms
+
+        def rejects(atoms):
+            return any((not pol) and isinstance(a, ast.Call) and call_name(a) == 'is_parameterized' for a, pol in atoms)
+        ok = False
         if isinstance(pred, ast.Lambda):
-            body = pred.body
+            ok = rejects(conjuncts(pred.body, True))
         elif isinstance(pred, ast.Name):
             for n in ast.walk(fn):
                 if isinstance(n, ast.FunctionDef) and n.name == pred.id:
-                    rets = [r.value for r in ast.walk(n) if isinstance(r, ast.Return) and r.value is not None]
-                    if len(rets) == 1:
-                        body = rets[0]
-        ok = False
-        if body is not None:
-            from ..flow import conjuncts
-            for atom, pol in conjuncts(body, True):
-                if not pol and isinstance(atom, ast.Call) and call_name(atom) == 'is_parameterized':
-                    ok = True
+                    parents = {ch: pa for pa in ast.walk(n) for ch in ast.iter_child_nodes(pa)}
+                    rets = [r for r in ast.walk(n) if isinstance(r, ast.Return)]
+                    # every return that can admit an operation is guarded: in the returned conjunction or by a dominating test
+                    ok = bool(rets) and all(
+                        (isinstance(r.value, ast.Constant) and r.value.value in (False, None)) or r.value is None
+                        or rejects(conjuncts(r.value, True)) or rejects(dominating_atoms(parents, r, n))
+                        for r in rets)
         ctx.ob(rid, 'cirq.sim.simulator_base.SimulatorBase.simulate_sweep_iter:prefix-predicate', ok,
                '' if ok else 'prefix predicate does not conjoin `not is_parameterized(op)`: a resolver-dependent '
                'operation would be simulated once and reused for every sweep point', ci.mod.rel, c.lineno)
